@@ -5,6 +5,10 @@
 #include <cstdlib>
 #include <cstring>
 #include <string>
+#include <locale>
+#include <cstdlib>
+#include <ctime>
+#include <cstdint>
 #include <vector>
 #include <sstream>
 #include <fstream>
@@ -46,6 +50,22 @@ static inline std::vector<std::string> split(const std::string& s, char c) {
     return out;
 }
 static inline const char* bool_s(bool b) { return b ? "true" : "false"; }
+
+// ---- a hostile but legitimate process environment, installed before anything else runs: a global C++ locale with digit grouping and a
+// decimal comma (stream formatting of numbers changes, snprintf / to_string do not), and a time zone that is not UTC (mktime / localtime shift)
+struct GroupingPunct : std::numpunct<char> {
+    char do_thousands_sep() const { return ','; } std::string do_grouping() const { return "\3"; } char do_decimal_point() const { return ','; }
+};
+struct HostileEnvironment { HostileEnvironment() { std::locale::global(std::locale(std::locale::classic(), new GroupingPunct)); setenv("TZ", "IST-5:30", 1); tzset(); } };
+static HostileEnvironment g_hostile_environment;
+
+// a copy of the bytes at an address that is NOT aligned (offset 1..7 from an 8-byte boundary)
+struct Misaligned {
+    std::vector<uint8_t> store; const uint8_t* p;
+    Misaligned(const Bytes& b, size_t off) : store(b.size() + 24) {
+        uintptr_t base = (reinterpret_cast<uintptr_t>(store.data()) + 7) & ~(uintptr_t)7; uint8_t* q = reinterpret_cast<uint8_t*>(base) + (off % 7) + 1;
+        if (!b.empty()) memcpy(q, b.data(), b.size()); p = q; }
+};
 
 // run f, mapping the documented exception types to canonical strings
 static inline std::string guarded(const std::function<std::string()>& f) {
